@@ -66,7 +66,7 @@ def judge_outcomes(sysm, problems):
     got = {}
     confs = sysm.client.confirmations
     for e in sysm.errors:
-        if e.startswith("submit:") or e.startswith("iam:"):
+        if e.startswith("submit:") or e.startswith("iam:") or e.startswith("sidetalk:"):
             problems.append(("submitting-the-request-raised:%s" % e.split(":")[1], {"error": e}))
     if len(sysm.submitted) + sum(1 for e in sysm.errors if e.startswith("submit:")) != len(cfg.reqs):
         if cfg.via == "iocb-chain":
